@@ -225,7 +225,7 @@ theorem inv_work_retry (c : Cfg) (ar aq : Nat) (s : S) (h : Inv c ar aq s) (hrun
     · simp only [Bool.not_eq_true] at hur
       apply finish_direct c ar aq m hbm m_run m_cl h3m h6m m_pd m_sr m_dir (by rw [m_ur]; exact hur) m_ps hcu.2.1 hlcm m_resp
         hcu.2.2.2.1 hcu.2.2.2.2 m_rst (by rw [m_ph, hp]; intro hh; cases hh)
-      intro _; right; exact ⟨m_resp, hlcm⟩
+      intro _; right; exact ⟨m_resp, Or.inl hlcm⟩
   · rw [if_neg hhg]
     simp only
     have e_sp : ∀ (z : S), (if (retryArmsGlobalWhenUnsent && !z.reqSent) = true then onUpstreamRequestSent c z
